@@ -85,6 +85,7 @@ func C18(p *core.Prog, r *core.Report) {
 	r.Rule("LOOKUP", "the translation helper allocates len(input) bytes and writes, for every index, either the input byte itself (lookup missed) or new[first index of the byte in old]", 3)
 	r.Rule("WIRE", "the translated bytes are computed from the argument's Bytes() and are the bytes of the returned sequence", 2)
 	r.Rule("CLASSES", "for each of the 16 IUPAC query letters the character class Match writes equals {x : bases(x) subset of bases(q)} over the lower-case alphabet incl. u", 16)
+	r.Rule("LITERAL-HIGH", "a query byte written to the pattern as a one-byte literal is ASCII (a guard `c < 0x80` dominates the write): a byte of 0x80 or more is not valid UTF-8 on its own, the pattern does not compile, and the literal cannot match itself", 1)
 	r.Rule("LITERAL", "every query-derived text that reaches the pattern outside a constant class passes through regexp.QuoteMeta, and the pattern is compiled with the error-returning constructor", 2)
 	r.Rule("FOLD-BYTEWISE", "the case-folded copies that Search and Match look for hits in keep every byte at its index: each is a slice made as long as the residues and filled by one loop whose per-byte map, evaluated for all 256 byte values, is ASCII lower-casing ('A'..'Z' -> +32, every other byte itself); a rune-wise library fold (bytes.ToLower/ToUpper/Map, strings.*) changes the length for invalid UTF-8 and shifts every later offset", 4)
 	r.Rule("FOLD", "both operands of Search and of Match are case-folded; all hits are requested (negative count); the result is sorted with sort.Sort(BySegment)", 8)
@@ -595,6 +596,33 @@ func matchClasses(p *core.Prog, r *core.Report, info *types.Info) {
 		if qc, ok := arg.(*ast.CallExpr); ok && core.IsCallTo(info, qc, "regexp.QuoteMeta") && name == "WriteString" {
 			if core.UsesObj(info, qc, cObj) {
 				r.Ok("LITERAL", key, p.Pos(c.Pos()), "query byte is escaped with regexp.QuoteMeta before it reaches the pattern")
+				// LITERAL-HIGH: a byte >= 0x80 written as a one-byte string is not valid UTF-8; the pattern
+				// does not compile and Match gives up. Unless something in front of the write restricts the
+				// byte to ASCII, a literal high byte never matches itself.
+				guarded := false
+				par := core.Parents(fd.Body)
+				for m := par[ast.Node(c)]; m != nil && !guarded; m = par[m] {
+					is, isIf := m.(*ast.IfStmt)
+					if !isIf {
+						continue
+					}
+					core.Facts(is.Cond, true, func(atom ast.Expr, val bool) {
+						be, ok := ast.Unparen(atom).(*ast.BinaryExpr)
+						if !ok || core.ObjOf(info, be.X) != cObj {
+							return
+						}
+						k, isConst := core.ConstInt(info, be.Y)
+						if isConst && val && ((be.Op == token.LSS && k <= 0x80) || (be.Op == token.LEQ && k < 0x80)) {
+							guarded = true
+						}
+					})
+				}
+				hkey := "gts.Match|high-bytes"
+				if guarded {
+					r.Ok("LITERAL-HIGH", hkey, p.Pos(c.Pos()), "only ASCII bytes are written as one-byte literals")
+				} else {
+					r.Bad("LITERAL-HIGH", hkey, p.Pos(c.Pos()), "a query byte of 0x80 or more is written to the pattern as a one-byte string, which is not valid UTF-8: regexp.Compile rejects the pattern and Match returns nothing. Failing input: Match(seq \"a\\xffa\", query \"\\xff\") returns no segment (a literal byte must match itself), and so does any query that contains such a byte")
+				}
 			} else {
 				r.Und("LITERAL", key, p.Pos(c.Pos()), "QuoteMeta is applied to something other than the query byte")
 			}
